@@ -212,9 +212,16 @@ func (s *Scanner) handleNATEntries(key KeyInterface, val ValueInterface, rev_ts 
 		// timestamp returned from the scanner will match the
 		// same as that of entry's ts. Just go ahead with deletion.
 		if ts == rev_ts {
-			dummy := s.versionHelper.dummyKey()
-			s.updateCleanupMap(key, dummy, ts, rev_ts)
-			return
+			// Equal timestamps do not prove that the reverse entry is missing: a packet
+			// that hits the forward key stamps both entries with the same time. Only
+			// queue the forward entry on its own if the reverse entry is really gone;
+			// otherwise fall through and pair it with its reverse entry so that the
+			// cleaner re-checks the reverse entry's timestamp before deleting either.
+			if _, err := s.get(revKey); err != nil {
+				dummy := s.versionHelper.dummyKey()
+				s.updateCleanupMap(key, dummy, ts, rev_ts)
+				return
+			}
 		}
 		_, ok := s.revNATKeyToFwdNATInfo[revKey]
 		if !ok {
